@@ -135,6 +135,7 @@ def run(ck):
     ck.coq_build(["props/C20.vo", "extract/C20_extract.vo"])
     ck.print_assumptions(["DSP.C20"], ["DSP.C20." + t for t in THEOREMS])
     ck.hygiene()
+    ck.source_tie("cli")
     ck.ocaml_build()
     ck.harness_build(["c20"])
     ok, log = build_duck()
